@@ -5,8 +5,9 @@
   exactly the model's `MD.debugRows` (one line per row, `chunks(64).take(64 - empty_rows)`, a space for `None`, the type's
   character otherwise), then the "(n empty rows skipped)" line exactly when the model's `MD.emptyRows` (`rchunks(64)
   .take_while(all None).count()`) is positive, with that number, then "]" (`renderDebug`, which only sequences the
-  prelude's two write primitives). That the concatenation of these writes is the `String` `MD.debugText` is string algebra
-  outside the translation and is not proved here.
+  prelude's two write primitives), and that these writes concatenate to the `String` `MD.debugText`
+  (`Debug_fmt_text_src_eq_model`). `from_pattern`: for every pattern, a panic exactly where the model's `fromPattern`
+  rejects, the model's display otherwise.
 -/
 import EG.Props.C20.GeneratedColors
 set_option linter.unusedSimpArgs false
@@ -14,8 +15,6 @@ set_option linter.unusedVariables false
 namespace EG.C20.GeneratedPattern
 open EG EG.Mock EG.RectSrcPrelude EG.MockSrcPrelude EG.MockSrcLemmas EG.Generated EG.Generated.MockSrc EG.C20.Generated
 open EG.C20.GeneratedColors
-
--- [V] the text written by `Debug::fmt` (`renderDebug` below) equals the model's `MD.debugText` as a `String`: carried by correspondence (stream mock.debug) + oracle only
 
 /-! ### `Debug` -/
 
@@ -157,6 +156,53 @@ theorem Debug_fmt_src_eq_model (C : CT) (d : MD) (f : Formatter) (hv : CellsVali
   by_cases he : d.emptyRows > 0
   · simp only [he, decide_true, ↓reduceIte, toOpt]
   · simp only [he, decide_false, Bool.false_eq_true, ↓reduceIte, toOpt]
+
+theorem push_fold_toList : ∀ (row : List Char) (s : String), (row.foldl fmt_write_char s).toList = s.toList ++ row
+  | [], s => by simp
+  | c :: rest, s => by
+    rw [List.foldl_cons, push_fold_toList rest]
+    simp only [fmt_write_char, String.toList_push, List.append_assoc, List.singleton_append]
+
+theorem fmtSubst_empty : fmtSubst "".toList [] = [] := by decide
+theorem fmtSubst_header : fmtSubst "MockDisplay[".toList [] = "MockDisplay[".toList := by decide
+theorem fmtSubst_close : fmtSubst "]".toList [] = "]".toList := by decide
+theorem fmtSubst_skipped (a : String) :
+    fmtSubst "({} empty rows skipped)".toList [a] = "(".toList ++ a.toList ++ " empty rows skipped)".toList := by
+  rfl
+
+theorem rows_fold_toList : ∀ (rows : List (List Char)) (s : String),
+    (rows.foldl (fun s row => fmt_writeln (row.foldl fmt_write_char s) "" []) s).toList
+      = s.toList ++ rows.flatMap (fun r => r ++ ['\n'])
+  | [], s => by simp
+  | r :: rest, s => by
+    rw [List.foldl_cons, rows_fold_toList rest]
+    simp only [fmt_writeln, String.toList_append, push_fold_toList, fmtSubst_empty, String.toList_ofList,
+      List.flatMap_cons, List.append_assoc, List.append_nil]
+    rfl
+
+/-- the writes of `Debug::fmt` concatenate to the model's complete `{:?}` text. -/
+theorem renderDebug_eq_debugText (C : CT) (d : MD) (f : String) :
+    renderDebug f (d.debugRows C) d.emptyRows = f ++ d.debugText C := by
+  apply String.ext
+  unfold renderDebug MD.debugText
+  have l1 : "MockDisplay[\n".toList = "MockDisplay[".toList ++ ['\n'] := by decide
+  have l2 : " empty rows skipped)\n".toList = " empty rows skipped)".toList ++ ['\n'] := by decide
+  have l3 : "]\n".toList = "]".toList ++ ['\n'] := by decide
+  have l4 : "\n".toList = ['\n'] := by decide
+  have l5 : "".toList = [] := by decide
+  by_cases he : d.emptyRows > 0
+  · simp only [he, ↓reduceIte, fmt_writeln, String.toList_append, rows_fold_toList, String.toList_ofList,
+      fmtSubst_header, fmtSubst_close, fmtSubst_skipped, usize_display, String.toList_join, List.flatMap_map,
+      l1, l2, l3, l4, List.append_assoc, List.append_nil]
+  · simp only [he, ↓reduceIte, fmt_writeln, String.toList_append, rows_fold_toList, String.toList_ofList,
+      fmtSubst_header, fmtSubst_close, fmtSubst_skipped, usize_display, String.toList_join, List.flatMap_map,
+      l1, l2, l3, l4, List.append_assoc, List.append_nil]
+    simp only [l5, List.nil_append, List.append_nil]
+
+/-- `Debug::fmt` appends exactly the model's complete `{:?}` text to the formatter (valid cells). -/
+theorem Debug_fmt_text_src_eq_model (C : CT) (d : MD) (f : Formatter) (hv : CellsValid C d) :
+    toOpt (Debug_fmt C d f) = some (f ++ d.debugText C) := by
+  rw [Debug_fmt_src_eq_model C d f hv, renderDebug_eq_debugText]
 
 /-! ### `from_pattern` -/
 
